@@ -126,6 +126,20 @@ def families(tier):
         for o in (['A', 'B', 'C'], ['C', 'B', 'A']):
             out.append(dict(prop='C06', family='c06.mutex.gather_in_one_handler', id=f'c06/gather-{b1}{b2}-p{int(par_a)}-{cshape}-o{"".join(o)}', cfg=cfg, params=dict(first_b='gather', par_a=par_a, par_b=False),
                             scn=dict(buses={'A': dict(parallel=par_a), 'B': {}, 'C': {}}, order=o, handlers=hs, main=main, actors=[], forwards=[], settle=3.0)))
+    # two handlers of one event on a parallel_handlers bus share their function name (closures from one factory, same-named methods of two instances - the
+    # library only warns): the one registered first is still busy when the one registered last has finished; nothing else may start meanwhile
+    for slow_first, kinds, nb in itertools.product((True, False), (('async', 'async'), ('amethod', 'amethod'), ('async', 'amethod')), (1, 2)):
+        p_slow, p_fast = [('pause',), ('pause',), ('ret', 1)], [('ret', 2)]
+        hs = [dict(bus='A', pat='P', name='h1', fname='handle', prog=p_slow if slow_first else p_fast, kind=kinds[0]),
+              dict(bus='A', pat='P', name='h2', fname='handle', prog=p_fast if slow_first else p_slow, kind=kinds[1]),
+              dict(bus='A', pat='X', name='hxA', prog=[('pause',)])]
+        names = ['A', 'B'] if nb == 2 else ['A']
+        if nb == 2:
+            hs.append(dict(bus='B', pat='X', name='hxB', prog=[('pause',)]))
+        main = [('disp', 'A', 'P', 'ff'), ('disp', names[-1], 'X', 'ff'), ('disp', 'A', 'X2', 'ff')]
+        for o in ([names] if nb == 1 else [names, names[::-1]]):
+            out.append(dict(prop='C06', family='c06.mutex.same_named_parallel_handlers', id=f'c06/samename-s{int(slow_first)}-{kinds[0]}{kinds[1]}-n{nb}-o{"".join(o)}', cfg=cfg, params=dict(first_b='samename', par_a=True, par_b=False),
+                            scn=dict(buses={b: dict(parallel=(b == 'A')) for b in names}, order=o, handlers=hs, main=main, actors=[], forwards=[], settle=3.0)))
     # the grammar-generated corpus shared by the bus properties (vsched/gen.py), judged by this property's oracle
     from .. import gen
     out += gen.family('C06', tier, params=dict(first_b='generated', par_a=None, par_b=None), timeouts=(None,))
